@@ -320,7 +320,72 @@ def rule_c(ctx, out):
                         "its operands are on top of the stack in order", where(g))
 
 
+def rule_d(ctx, out):
+    """Operands may be computed in swapped order only for commutative operations.
+
+    Call-site idiom: `if self.must_reverse(o, inpts, ...): inpts.reverse()` ... compute ... `inpts.reverse()` ... assert inpts[i] == stack[i].
+    When must_reverse answers False the asserted layout is the *reversed* operand list, so a False answer is admissible only when
+    the operation is commutative."""
+    f = ctx.func(f"{GREEDY}.SMSgreedy.must_reverse")
+    cfg = ctx.cfg(f)
+
+    def comm_edge(test, want):
+        """(test == want) implies record['commutative'] is truthy."""
+        if isinstance(test, ast.Subscript) and isinstance(test.slice, ast.Constant) and test.slice.value == "commutative":
+            return want
+        if isinstance(test, ast.UnaryOp) and isinstance(test.op, ast.Not):
+            return comm_edge(test.operand, not want)
+        if isinstance(test, ast.BoolOp):
+            if isinstance(test.op, ast.And) and want:
+                return any(comm_edge(v, True) for v in test.values)
+            if isinstance(test.op, ast.Or) and not want:
+                return any(comm_edge(v, False) for v in test.values)
+        return False
+    rets = [n for n in cfg.nodes if n.kind == "stmt" and isinstance(n.ast, ast.Return)]
+    if len(rets) < 3:
+        raise AnalysisError("SMSgreedy.must_reverse: fewer than 3 returns found")
+    for r in rets:
+        v = r.ast.value
+        if isinstance(v, ast.Constant) and v.value is True:
+            out.ok()
+            continue
+        ok = False
+        for t in cfg.nodes:
+            if t.kind == "test":
+                for lab in ("T", "F"):
+                    if comm_edge(t.ast, lab == "T") and cfg.edge_dominated_by_branch(r, t, lab):
+                        ok = True
+        if ok:
+            out.ok({"must_reverse": short(r.ast), "only_for": "commutative operations"})
+        else:
+            out.bad(f"must_reverse:swap-allowed-for-noncommutative:{short(r.ast, 30)}", "must_reverse can answer False (operands computed in swapped order, and the "
+                    "position assert is then taken against the reversed list) for an operation that is not known to be commutative", where(f, r.ast))
+    # the call-site idiom itself
+    n_sites = 0
+    for g in ctx.p.funcs_in(GREEDY):
+        for st in own_nodes(g.node):
+            if isinstance(st, ast.If) and calls_in(st.test, "must_reverse"):
+                n_sites += 1
+                body_ok = len(st.body) == 1 and isinstance(st.body[0], ast.Expr) and isinstance(st.body[0].value, ast.Call) \
+                    and call_name(st.body[0].value) == "reverse" and not st.orelse
+                parent_body = getattr(st, "_parent", None)
+                seq = []
+                for fld in ("body", "orelse", "finalbody"):
+                    if st in (getattr(parent_body, fld, []) or []):
+                        seq = getattr(parent_body, fld)
+                later = seq[seq.index(st) + 1:] if st in seq else []
+                second = [x for x in later if isinstance(x, ast.Expr) and isinstance(x.value, ast.Call) and call_name(x.value) == "reverse"]
+                asserts = [x for x in ast.walk(ast.Module(body=later, type_ignores=[])) if isinstance(x, ast.Assert) and "inpts[" in norm(x.test)]
+                if body_ok and len(second) == 1 and asserts:
+                    out.ok({"function": g.qual, "idiom": "conditional reverse / compute / reverse / assert positions"})
+                else:
+                    out.bad(f"{g.name}:operand-order-idiom", "the reverse / compute / reverse / assert idiom around must_reverse was altered", where(g, st))
+    if n_sites < 2:
+        raise AnalysisError("fewer than 2 must_reverse call sites found")
+
+
 RULES = [
+    ("C04.d", "operand order deviates from the specification only for commutative operations", 5, rule_d),
     ("C04.a", "SWAP/DUP emission bounds 1..16", 9, rule_a),
     ("C04.b", "failure containment of the greedy search", 8, rule_b),
     ("C04.c", "run-time post-condition asserts dominate success", 3, rule_c),
